@@ -271,8 +271,7 @@ def runP : P → List Bytes → Env → Step
     match args with
     | [] => .ret false args env
     | _ :: _ =>
-      if (args.length : Int) < n then .fail .invalidArgNum
-      else if n < 0 then .panic                                   -- `make([]string, n)`
+      if n < 0 || (args.length : Int) < n then .fail .invalidArgNum   -- `n < 0 || len(args) < n`
       else .ret true (args.drop n.toNat) (setSlot env slot (.list (args.take n.toNat)))
   -- `AnyMap`: only an even number of remaining arguments (zero included) fires
   | .anyMap slot, args, env =>
